@@ -426,7 +426,8 @@ pub fn gen_c08_with(rng: &mut Rng, tier: Tier, real_scale: bool) -> Case {
         mf: gen::gen_merge_kind(rng),
         consume: rng.below(3) as u8,
         out_knobs: Knobs::default_knobs(),
-        env: gen::gen_env(rng, true),
+        // the monitors sit at the creator seam; byte-wise chunk I/O adds cost, not reach
+        env: if rng.chance(2, 3) { crate::env::EnvPlan { buffered: rng.chance(1, 2), ..crate::env::EnvPlan::whole() } } else { gen::gen_env(rng, true) },
     })
 }
 
@@ -440,9 +441,10 @@ pub fn check_c08(case: &Case, st: &mut Stats) -> Verdict {
     };
     let bound = if knobs.allow_realloc { 2 * budget } else { budget };
     let max_chunks = knobs.max_nb_chunks.unwrap_or(25).max(1) as i64;
-    let heap_before = crate::alloc::thread_peak_reset();
+    let live_before = crate::alloc::thread_live();
+    let _ = crate::alloc::thread_peak_reset();
     let r = run_case(case, &c.env, &RunOpts::default());
-    let heap_peak = crate::alloc::thread_peak_reset().max(heap_before * 0);
+    let heap_peak = crate::alloc::thread_peak_reset();
     st.absorb_env(&r);
     absorb_sort_reach(st, &r, knobs);
     if let Some((i, rec)) = first_bad(&r.recs) {
@@ -487,10 +489,14 @@ pub fn check_c08(case: &Case, st: &mut Stats) -> Verdict {
         if crate::alloc::enabled() {
             // heap high-water mark excluding simulated storage: peak - bytes held by chunks
             let storage = e.chunk_bytes_written;
-            let net = heap_peak.saturating_sub(storage * 2);
-            st.c.max("max.real_scale_heap_net_permille_of_bound", net * 1000 / bound);
-            if net > bound + bound / 2 + (8 << 20) {
-                return viol("C08", "heap-peak", format!("heap peak {} (net of storage {}) exceeds 1.5x bound {} + 8 MiB", heap_peak, storage, bound));
+            let net = heap_peak.saturating_sub(live_before);
+            st.c.max("max.real_scale_heap_permille_of_2x_budget", net * 1000 / (2 * budget));
+            if net > 2 * budget + (8 << 20) {
+                return viol(
+                    "C08",
+                    "heap-peak",
+                    format!("heap high-water mark {} bytes above the start of the run (simulated storage of {} bytes excluded) exceeds 2 x budget {} + 8 MiB", net, storage, budget),
+                );
             }
         }
     } else {
